@@ -69,6 +69,45 @@ def model_shapes(n):
     return out
 
 
+def space_shapes():
+    """Loops that carry heap values in their loop variables: (name, source with %d for the iteration count).
+    Each old value is garbage as soon as it is replaced, so the peak resident memory must not depend on the count."""
+    s = []
+    s.append(("str-replaced", "(define (lp n label) (if (= n 0) label (lp (- n 1) (make-string 200 #\\x))))\n(string-length (lp %d \"start\"))"))
+    s.append(("str-read", "(define (lp n label) (if (= n 0) label (lp (- n 1) (string-append (substring label 0 1) (make-string 199 #\\y)))))\n(string-length (lp %d \"start\"))"))
+    s.append(("list-replaced", "(define (lp n l) (if (= n 0) l (lp (- n 1) (list n n n n n n n n))))\n(length (lp %d '()))"))
+    s.append(("vector-replaced", "(define (lp n v) (if (= n 0) v (lp (- n 1) (make-vector 16 n))))\n(vector-length (lp %d (vector)))"))
+    s.append(("two-carried", "(define (lp n a b) (if (= n 0) (list a b) (lp (- n 1) b (make-string 100 #\\z))))\n(length (lp %d \"p\" \"q\"))"))
+    s.append(("mutual-carried", "(define (ev n s) (if (= n 0) s (od (- n 1) (make-string 150 #\\e))))\n(define (od n s) (if (= n 0) s (ev (- n 1) (list n s))))\n(ev %d \"s\")"))
+    s.append(("closure-carried", "(define (lp n k) (if (= n 0) (k) (lp (- n 1) (let ((m (make-string 120 #\\c))) (lambda () (string-length m))))))\n(lp %d (lambda () 0))"))
+    return s
+
+
+def run_space(args):
+    """Peak resident memory (kB) of one loop with `count` iterations; module = the text is a required file."""
+    name, src, count, jit, module = args
+    env = {"STEEL_JIT": "true" if jit else "false", "VH_RSS": "1"}
+    text = src % count
+    path = None
+    if module:
+        d = os.path.join(C.BUILD, "C09", "mods")
+        os.makedirs(d, exist_ok=True)
+        path = os.path.join(d, "space-%s-%d-%s-%d.scm" % (name, count, "jit" if jit else "nojit", os.getpid()))
+        body = text.rsplit("\n", 1)
+        with open(path, "w") as f:
+            f.write(body[0] + "\n(displayln " + body[1] + ")\n")
+        text = '(require "%s")' % path
+    rc, out, err = C.run_bin([C.bin_path("vh"), "eval"], text + "\n", timeout=1800, env=env)
+    if path:
+        try:
+            os.remove(path)
+        except OSError:
+            pass
+    m = re.findall(r"## rss_kb=(\d+) hwm_kb=(\d+)", out)
+    ok = rc == 0 and "=> ok" in out
+    return name, count, jit, module, ok, int(m[-1][1]) if m else -1, (out + err)[-300:]
+
+
 def run_one(args):
     name, src, jit = args
     env = {"STEEL_JIT": "true" if jit else "false"}
@@ -131,6 +170,46 @@ def run(ctx):
             src = dict((nm, s) for nm, s in shapes(n)).get(name.replace("module:", ""), deep)
             ctx.violation("C09-%s-%s.scm" % (name.replace(":", "-"), "jit" if jit else "nojit"),
                           "; STEEL_JIT=%s ; %s%s\n%s\n" % (jit, "MODULE (the text below is a file, evaluated by (require \"file\")) ; " if name.startswith("module:") else "", bad, src))
+
+    # the frame limit: non-tail recursion deeper than the limit (10^7 frames; the compiler unrolls a self call once,
+    # so 2.4*10^7 levels) must end with an error value that a handler can catch, on every call path
+    limit_src = ("(define (depth n) (if (= n 0) 0 (+ 1 (depth (- n 1)))))\n"
+                 "(define (try n) (with-handler (lambda (e) 'error-value) (depth n)))\n"
+                 "(define r (list (try 100000) (try 24000000) 'alive))\n(list r 0 0 0)")
+    ljobs = [(pre + "limit", limit_src, jit) for pre in ("", "module:") for jit in (True, False)]
+    for name, jit, rc, last, err in C.pool_map(run_one, ljobs):
+        stats["evaluations"] += 1
+        stats["seen"].add((name, jit))
+        if rc != 0 or "(100000 error-value alive)" not in last:
+            ctx.violation("C09-%s-%s.scm" % (name.replace(":", "-"), "jit" if jit else "nojit"),
+                          "; STEEL_JIT=%s ; %srecursion past the frame limit must give an error value: expected ((100000 error-value alive) 0 0 0), got rc=%d %s %s\n%s\n" % (
+                              jit, "MODULE ; " if name.startswith("module:") else "", rc, last[-120:], err[-200:], limit_src))
+
+    # constant space, not only constant stack depth: peak resident memory of loops that carry heap values must not
+    # grow with the iteration count (a loop variable replaced on every iteration without being consumed is the
+    # case where a slot that is overwritten rather than moved out leaks its old value)
+    small, big = 10000, (1000000 if ctx.quick() else 10000000)
+    margin_kb = 40 * 1024 if ctx.quick() else 96 * 1024
+    sjobs = [(nm, src, cnt, jit, mod) for nm, src in space_shapes() for jit in (True, False) for mod in (True, False)
+             for cnt in (small, big)]
+    peak = {}
+    for nm, cnt, jit, mod, ok, hwm, tail in C.pool_map(run_space, sjobs):
+        stats["evaluations"] += 1
+        stats["seen"].add(("space:" + nm, jit, mod))
+        peak[(nm, jit, mod, cnt)] = (ok, hwm, tail)
+    for nm, src in space_shapes():
+        for jit in (True, False):
+            for mod in (True, False):
+                (ok1, h1, t1), (ok2, h2, t2) = peak[(nm, jit, mod, small)], peak[(nm, jit, mod, big)]
+                bad = None
+                if not ok1 or not ok2:
+                    bad = "the loop did not complete: %s" % (t2 if ok1 else t1)
+                elif h2 - h1 > margin_kb:
+                    bad = "peak resident memory grows with the iteration count: %d kB for %d iterations, %d kB for %d (allowed growth %d kB)" % (
+                        h1, small, h2, big, margin_kb)
+                if bad:
+                    ctx.violation("C09-space-%s-%s-%s.scm" % (nm, "module" if mod else "toplevel", "jit" if jit else "nojit"),
+                                  "; STEEL_JIT=%s ; %s%s\n%s\n" % (jit, "MODULE ; " if mod else "", bad, src % big))
 
     # model: shapes + generated fragment programs (tail-aware code vs reference semantics; depth when tail-only)
     rng = random.Random(ctx.seed)
